@@ -1096,10 +1096,10 @@ fn normalize_token_spacing(src: &str, vfs_path: &crate::parser::vfs::VfsPathBuf)
         }
         let gap = &src[gap_start..gap_end];
 
-        // Preserve comments and intentional line breaks. A `/` in an
-        // inter-token gap can only be the start of a comment, since
-        // division operators are tokens in their own right.
-        if gap.contains('/') || gap.contains('\n') {
+        // Preserve intentional line breaks, and only ever rewrite
+        // whitespace: a gap can also hold comments and characters the
+        // lexer does not recognise, which must not be deleted.
+        if gap.contains('\n') || !gap.chars().all(char::is_whitespace) {
             continue;
         }
 
